@@ -796,6 +796,11 @@ class NumpyTensorSpace(TensorSpace):
                 else:
                     newshape = tuple(space.shape[i] for i in indices)
 
+                if not is_numeric_dtype(space.dtype):
+                    # Non-numeric spaces accept no `weighting` argument
+                    return type(space)(newshape, space.dtype,
+                                       exponent=space.exponent)
+
                 if isinstance(space.weighting, ArrayWeighting):
                     new_array = np.asarray(space.weighting.array[indices])
                     weighting = NumpyTensorSpaceArrayWeighting(
